@@ -2023,6 +2023,12 @@ func (e *lbEngine) execCall(in *lbInst, st *lstate, call *ssa.Call) *lstate {
 		return st.ge(r, linConst(-1)).ge(linConst(4), r)
 	}
 	switch full {
+	case "strings.TrimLeftFunc", "strings.TrimRightFunc", "strings.TrimFunc", "strings.TrimLeft", "strings.TrimRight", "strings.Trim", "strings.TrimSpace", "strings.TrimPrefix", "strings.TrimSuffix",
+		"bytes.TrimLeftFunc", "bytes.TrimRightFunc", "bytes.TrimFunc", "bytes.TrimLeft", "bytes.TrimRight", "bytes.Trim", "bytes.TrimSpace", "bytes.TrimPrefix", "bytes.TrimSuffix":
+		if len(com.Args) >= 1 {
+			// a trimmed string is not longer than the string
+			return st.ge(e.lenLin(in, com.Args[0]), linAtom(e.lenAtom(call)))
+		}
 	case "strings.HasPrefix", "strings.HasSuffix", "bytes.HasPrefix", "bytes.HasSuffix":
 		if len(com.Args) == 2 {
 			// true only when the second operand fits into the first
